@@ -667,3 +667,46 @@ func isLHS(pm map[ast.Node]ast.Node, e ast.Node) bool {
 	}
 	return false
 }
+
+// typeRole names a local variable (parameter, result, local) after its type, so
+// that guard texts do not depend on what the variable happens to be called.
+// Package-level objects, fields, constants and functions keep their names.
+func typeRole(o types.Object) string {
+	v, ok := o.(*types.Var)
+	if !ok || v.IsField() || v.Pkg() == nil || v.Parent() == nil || v.Parent() == v.Pkg().Scope() {
+		return ""
+	}
+	t := v.Type()
+	switch t.String() {
+	case "error":
+		return "err"
+	case "int":
+		return "int"
+	case "string":
+		return "str"
+	case "bool":
+		return "flag"
+	case "[]string":
+		return "strs"
+	}
+	q := typeQName(t)
+	if q == "" {
+		return "local"
+	}
+	if q == "internal/parser.yamlMap" {
+		return "entry" // a (key, value) pair of a YAML mapping, however it was obtained
+	}
+	if i := strings.LastIndexAny(q, "./"); i >= 0 {
+		q = q[i+1:]
+	}
+	return "«" + q + "»"
+}
+
+
+// roleStr renders an expression with every local variable replaced by a name
+// derived from its type (see typeRole); fields, package-level objects and
+// constants keep their names. Used for obligation keys and guard texts so that
+// they survive a renaming of locals and parameters.
+func roleStr(info *types.Info, e ast.Node) string {
+	return canonStr(info, e)
+}
